@@ -44,6 +44,7 @@ type callRec struct {
 
 // callTracer counts repository calls per Add and injects the planned faults.
 type callTracer struct {
+	curSite  string
 	r        *Run
 	n        int            // global call counter
 	perAdd   map[string]int // ordinal of each method within the current Add
@@ -68,6 +69,7 @@ func (c *callTracer) before(m string, write bool) error {
 		c.perAdd = map[string]int{}
 	}
 	c.perAdd[m]++
+	c.curSite = c.site(m)
 	if m == "UpdateState" {
 		c.inReorg = true
 	}
@@ -164,11 +166,37 @@ func structuralCheck(rows map[string]Row) string {
 func crashsimExec(r *Run) {
 	t := r.T
 	// ---------------- phase 1: reference run
+	// layer 2 (a third of the runs): the process dies at an SQL statement boundary inside a repository call
+	layer2 := t.Chance(1, 3, "layer2")
+	if r.Opt["layer2"] == "1" {
+		layer2 = true
+	} else if r.Opt["layer2"] == "0" {
+		layer2 = false
+	}
+	r.Cfg["layer"] = map[bool]string{false: "repository calls", true: "SQL statements"}[layer2]
+	openW := func(w *World) {
+		if layer2 {
+			w.OpenSim()
+		} else {
+			w.Open()
+		}
+	}
+	defer func() { sqlHook = nil }()
 	ref := NewWorld(r)
 	defer ref.Destroy()
 	refTr := &callTracer{r: r, record: true}
 	ref.WrapRepo = refTr.install
-	ref.Open()
+	// SQL write-path events of the reference pass: (site, op)
+	var sqlEvents []string
+	sqlCount := 0
+	sqlHook = func(op, q string) {
+		if refTr.disabled || !layer2 {
+			return
+		}
+		sqlCount++
+		sqlEvents = append(sqlEvents, refTr.curSite+":"+op)
+	}
+	openW(ref)
 	h := NewHist(r, ref)
 	cap := 16
 	if r.Tier == "thorough" {
@@ -226,7 +254,34 @@ func crashsimExec(r *Run) {
 	}
 	// ---------------- fault plan
 	var plan []faultSpec
-	if sub := r.Opt["sub"]; sub != "" {
+	sqlK := -1 // layer 2: index of the SQL write-path event at which the process dies
+	if layer2 {
+		if sqlCount == 0 {
+			return
+		}
+		if sub := r.Opt["sub"]; sub != "" && strings.HasPrefix(sub, "sql:") {
+			sqlK, _ = strconv.Atoi(strings.TrimPrefix(sub, "sql:"))
+		} else {
+			// bias into reorganisations: events whose site is an UpdateState call or the insert after one
+			var inReorg []int
+			for i, e := range sqlEvents {
+				if strings.HasPrefix(e, "UpdateState") {
+					inReorg = append(inReorg, i)
+				}
+			}
+			if len(inReorg) > 0 && t.Chance(2, 3, "sql-in-reorg") {
+				sqlK = inReorg[t.Draw(len(inReorg), "sql-reorg-event")]
+			} else {
+				sqlK = t.Draw(sqlCount, "sql-event")
+			}
+			if r.Opt["enumerate"] == "1" {
+				for i := 0; i < sqlCount; i++ {
+					r.SubRuns = append(r.SubRuns, fmt.Sprintf("sql:%d", i))
+				}
+			}
+		}
+		r.Cfg["sql_events"] = sqlCount
+	} else if sub := r.Opt["sub"]; sub != "" {
 		// enumerated sub-run: "k:kind"
 		p := strings.SplitN(sub, ":", 2)
 		k, _ := strconv.Atoi(p[0])
@@ -281,7 +336,24 @@ func crashsimExec(r *Run) {
 	defer w.Destroy()
 	tr := &callTracer{r: r, plan: plan}
 	w.WrapRepo = tr.install
-	w.Open()
+	sqlSeen := 0
+	sqlHook = func(op, q string) {
+		if !layer2 || tr.disabled || tr.perAdd == nil {
+			return
+		}
+		k := sqlSeen
+		sqlSeen++
+		if k == sqlK {
+			s := "sqlcrash-before-" + op + "@" + tr.curSite
+			if op == "committed" {
+				s = "sqlcrash-after-commit@" + tr.curSite
+			}
+			sqlK = -1
+			tr.fire(s)
+			panic(crashPanic{s})
+		}
+	}
+	openW(w)
 	acked := map[string]RawHeader{}
 	ackedBeforeFault := 0
 	sigOf := func() string {
@@ -327,7 +399,9 @@ func crashsimExec(r *Run) {
 	afterRestartChecks := func(when string) {
 		before := w.TableDigest("headers")
 		w.Close()
-		w.Open()
+		tr.disabled = true
+		openW(w)
+		tr.disabled = false
 		if after := w.TableDigest("headers"); after != before {
 			r.Fail("C05", "restart-modified", sigOf(), "%s: database.Init on the existing file changed the headers table", when)
 		}
